@@ -21,13 +21,15 @@ import os
 import random
 import re
 import shutil
+import signal
 import subprocess
 import sys
 import tempfile
 import time
 from concurrent.futures import ThreadPoolExecutor
 
-import lib
+sys.path.insert(0, os.path.dirname(os.path.dirname(os.path.abspath(__file__))))
+import lib  # noqa: E402
 
 NEED_ML = False
 sys.setrecursionlimit(max(sys.getrecursionlimit(), 60000))      # generated trees nest a few thousand levels
@@ -272,14 +274,34 @@ def child_env(stack_mb=STACK_MB):
     return e
 
 
-def limit_as(nbytes):
-    def f():
-        import resource
+import threading
+
+LIVE = set()                     # harness / generator children that are running (killed by the watchdog at the deadline)
+LIVE_LOCK = threading.Lock()
+HARD_STOP = threading.Event()    # set at the hard deadline: nothing new is started, everything running is killed
+
+
+def spawn(argv, **kw):
+    """Popen without preexec_fn (which is not safe in a threaded parent); registered for the watchdog"""
+    p = subprocess.Popen(argv, **kw)
+    with LIVE_LOCK:
+        LIVE.add(p)
+    return p
+
+
+def reap(p):
+    with LIVE_LOCK:
+        LIVE.discard(p)
+
+
+def kill_all():
+    with LIVE_LOCK:
+        ps = list(LIVE)
+    for p in ps:
         try:
-            resource.setrlimit(resource.RLIMIT_AS, (nbytes, nbytes))
+            p.kill()
         except Exception:
             pass
-    return f
 
 
 def run_child(lines, cwd, stall=STALL_S, as_bytes=CHILD_AS, stack_mb=STACK_MB, total=None):
@@ -287,11 +309,13 @@ def run_child(lines, cwd, stall=STALL_S, as_bytes=CHILD_AS, stack_mb=STACK_MB, t
     -> (answers so far, why, stderr): why is None when every case was answered, else 'stall' | 'died';
     the case the child was working on is lines[len(answers)]."""
     import selectors
-    import threading
+    if HARD_STOP.is_set():
+        return [], "stall", "deadline"
     data = ("\n".join(lines) + "\n").encode()
     errf = tempfile.TemporaryFile()
-    p = subprocess.Popen([HARNESS, "c01run"], stdin=subprocess.PIPE, stdout=subprocess.PIPE, stderr=errf, cwd=cwd,
-                         env=child_env(stack_mb), preexec_fn=limit_as(as_bytes))
+    # the address space limit is set by the shell that execs the harness
+    p = spawn(["bash", "-c", "ulimit -v %d; exec %s c01run" % (as_bytes // 1024, HARNESS)], stdin=subprocess.PIPE,
+              stdout=subprocess.PIPE, stderr=errf, cwd=cwd, env=child_env(stack_mb))
 
     def feed():
         try:
@@ -313,7 +337,7 @@ def run_child(lines, cwd, stall=STALL_S, as_bytes=CHILD_AS, stack_mb=STACK_MB, t
             buf.append(blk)
             if b"\n" in blk:
                 last = now
-        elif now - last > stall or (total and now - t0 > total):
+        elif now - last > stall or (total and now - t0 > total) or HARD_STOP.is_set():
             why = "stall"
             p.kill()
             break
@@ -321,6 +345,7 @@ def run_child(lines, cwd, stall=STALL_S, as_bytes=CHILD_AS, stack_mb=STACK_MB, t
         p.wait(timeout=10)
     except Exception:
         p.kill()
+    reap(p)
     sel.close()
     p.stdout.close()
     raw = b"".join(buf).decode("utf-8", "replace")
@@ -397,7 +422,6 @@ def signature(cls, obs):
 class Control:
     """budget, early exit and the register of failures (shared by the runner threads)"""
     def __init__(self, tier, cwd):
-        import threading
         self.t0 = time.time()
         self.budget = float(os.environ.get("VERIF_C01_BUDGET_S") or BUDGET.get(tier, 150))
         self.cwd = cwd
@@ -407,6 +431,24 @@ class Control:
         self.fail = collections.OrderedDict()   # signature -> dict(count, witnesses=[(gen, line, cls, obs)], unconfirmed)
         self.stats = collections.Counter()
         self.inflight = collections.Counter()
+        self.phase = "run"
+        self.finished = threading.Event()
+        threading.Thread(target=self.watchdog, daemon=True).start()
+
+    def watchdog(self):
+        """hard deadlines, whatever the rest of this file does: budget + 120 s for running cases, 420 s more for
+        confirming and minimising; from then on every child is killed as soon as it appears"""
+        while not self.finished.wait(1.0):
+            over = time.time() - self.t0 - self.budget
+            if over > 120 and self.phase == "run" and not HARD_STOP.is_set():
+                if self.stop_reason is None or "deadline" not in self.stop_reason:
+                    self.stop_reason = "deadline: cases were still running %d s after the budget; children killed" % over
+                kill_all()
+            if over > 540:
+                if not HARD_STOP.is_set():
+                    self.stop_reason = (self.stop_reason or "") + " | hard deadline: everything killed"
+                    HARD_STOP.set()
+                kill_all()
 
     def left(self):
         return self.budget - (time.time() - self.t0)
@@ -1768,9 +1810,10 @@ def schema_path(rnd, dist, pfx):
         return "/" + "/".join(out)
     if r < 0.95:
         dist["schema-path:relative"] += 1
-        return "/".join(out)
+        return "../" * rnd.choice([0, 0, 1, 2, 3, 6]) + "/".join(out)
     dist["schema-path:degenerate"] += 1
-    return rnd.choice(["/", "/.", "/..", ".", "..", "", "//", "/./.", "/../..", "/" + pfx + ":", "/:"])
+    return rnd.choice(["/", "/.", "/..", ".", "..", "", "//", "/./.", "/../..", "/" + pfx + ":", "/:", "../..", "../../..",
+                       "../../../..", "/../../..", "../../../" + pfx + ":c", "./../..", "..//..", "../.."+ "/.." * 20])
 
 
 def path_case(rnd, dist):
@@ -1851,6 +1894,9 @@ NUM_TEMPLATES = [
     ("length-part", "typedef t { type string { length \"0..10\"; } } leaf l { type t { length %s + \"..5\"; } }"),
     ("default-of-int", "leaf l { type int8; default %s; }"),
     ("default-of-decimal", "typedef t { type decimal64 { fraction-digits 1; } default %s; } leaf l { type t; }"),
+    ("fraction-digits-and-min-max-range", "leaf l { type decimal64 { fraction-digits %s; range \"min..max\"; } }"),
+    ("fraction-digits-and-range", "typedef t { type decimal64 { fraction-digits %s; range \"-1.5..max\"; } default 1; } leaf l { type t; }"),
+    ("fraction-digits-leaf-list-default", "leaf-list l { type decimal64 { fraction-digits %s; range \"min..0|1..max\"; } default 0; }"),
     ("revision", "revision %s;"),
     ("revision-date", "import o { prefix o; revision-date %s; }"),
     ("yang-version", "yang-version %s;"),
@@ -2115,7 +2161,7 @@ def minimise(line, sig, cwd, budget_s=120, max_runs=600):
     runs = [0]
 
     def bad(l):
-        if time.time() - t0 > budget_s or runs[0] >= max_runs:
+        if time.time() - t0 > budget_s or runs[0] >= max_runs or HARD_STOP.is_set():
             return False
         runs[0] += 1
         if hang:
@@ -2278,6 +2324,14 @@ def report(res, gen, line, cls, obs, cwd, min_budget, count, confirmed):
         lib.log("  --- %s\n%s" % (n, "\n".join("  | " + x for x in t[:1500].splitlines())))
 
 
+class Deadline(Exception):
+    pass
+
+
+def _alarm(signum, frame):
+    raise Deadline()
+
+
 def run(res, tier, seed, proof):
     t0 = time.time()
     cwd = tempfile.mkdtemp(prefix="c01-empty-")
@@ -2289,6 +2343,12 @@ def run(res, tier, seed, proof):
     timing = {}
     evaluations = nontrivial = 0
     try:
+        try:        # only possible in the main thread; the watchdog thread works everywhere
+            signal.signal(signal.SIGALRM, _alarm)
+            signal.alarm(int(ctl.budget) + 600)
+        except Exception:
+            pass
+
         def consume(cases):
             nonlocal evaluations, nontrivial
             obs = run_cases(ctl, cases)
@@ -2329,24 +2389,57 @@ def run(res, tier, seed, proof):
             for _ in range(chunks):
                 work.append((tier, seed, k, ns, nm, nn, npth))
                 k += 1
-        import multiprocessing
+        # chunks are generated by separate python processes (no fork of this threaded process, no pool to shut
+        # down): "python3 c01.py gen <args> <out>" pickles (cases, distribution) into a file
+        import pickle
+        gendir = tempfile.mkdtemp(prefix="c01-gen-")
+
+        def generate(arg):
+            if ctl.stopped() or HARD_STOP.is_set():
+                return None
+            out = os.path.join(gendir, "chunk-%d.pickle" % arg[2])
+            p = spawn([sys.executable, os.path.abspath(__file__), "gen"] + [str(x) for x in arg] + [out],
+                      stdout=subprocess.DEVNULL, stderr=subprocess.PIPE, env=dict(os.environ, VERIF_REPO=lib.REPO))
+            try:
+                _, err = p.communicate(timeout=600)
+            except subprocess.TimeoutExpired:
+                p.kill()
+                p.communicate()
+                err = b"generator timed out"
+            finally:
+                reap(p)
+            if p.returncode != 0 or not os.path.exists(out):
+                if not ctl.stopped():
+                    raise RuntimeError("case generator failed: " + err.decode("utf-8", "replace")[-800:])
+                return None
+            with open(out, "rb") as f:
+                r = pickle.load(f)
+            os.remove(out)
+            return r
+
         batch = 64 if tier != "quick" else 20
         done_chunks = 0
-        with multiprocessing.Pool(min(lib.NCPU, 16)) as pool:
+        gen_ex = ThreadPoolExecutor(max_workers=max(2, lib.NCPU // 2))
+        try:
             pending = None
             for b in list(range(0, len(work), batch)) + [None]:
                 if ctl.stopped():
                     break
-                nxt = pool.map_async(gen_chunk, work[b:b + batch]) if b is not None else None
+                nxt = [gen_ex.submit(generate, w) for w in work[b:b + batch]] if b is not None else None
                 if pending is not None:
                     cs = []
-                    for cases, d in pending.get():
-                        cs += cases
-                        dist.update(d)
+                    for fu in pending:
+                        r = fu.result(timeout=900)
+                        if r is None:
+                            continue
+                        cs += r[0]
+                        dist.update(r[1])
                         done_chunks += 1
                     consume(cs)
                 pending = nxt
-            pool.terminate()
+        finally:
+            gen_ex.shutdown(wait=False, cancel_futures=True)
+            shutil.rmtree(gendir, ignore_errors=True)
         dist["chunks-generated"] = done_chunks
         dist["chunks-planned"] = len(work)
         if tier != "quick" and not ctl.stopped():
@@ -2362,6 +2455,7 @@ def run(res, tier, seed, proof):
                 res.violation("5*10^6 nested braces did not end in the listed stack exhaustion: %s %s" % (cls, o[:300]),
                               dict(kind="crash", case="parse <hex of 'a{' * %d>" % n, outcome=cls, observation=o[:2000]))
         # report: one violation per signature (confirmed ones first), the first three minimised within 240 s in all
+        ctl.phase = "report"
         order = sorted(ctl.fail.items(), key=lambda kv: (not kv[1]["witnesses"],))
         tmin = time.time()
         for i, (sig, f) in enumerate(order):
@@ -2377,7 +2471,22 @@ def run(res, tier, seed, proof):
             else:
                 res.violation("%d case(s) failed with signature %s but none was confirmed in a run of its own (budget)" % (f["count"], sig),
                               dict(kind="crash", signature=sig, confirmed=False), no_input=False)
+    except Deadline:
+        # last resort (signal.alarm): report what is known, without minimising
+        ctl.stop_reason = (ctl.stop_reason or "") + " | alarm: the check was interrupted at its final deadline"
+        HARD_STOP.set()
+        kill_all()
+        for sig, f in list(ctl.fail.items())[:5]:
+            w = (f["witnesses"] or [None])[0]
+            res.violation("%d case(s) failed with signature %s" % (f["count"], sig),
+                          dict(kind="crash", signature=sig, case=w[1] if w else None, observation=w[3][:2000] if w else None))
     finally:
+        try:
+            signal.alarm(0)
+        except Exception:
+            pass
+        ctl.finished.set()
+        kill_all()
         shutil.rmtree(cwd, ignore_errors=True)
     stats = dict(ctl.stats)
     cut = ctl.stop_reason
@@ -2428,3 +2537,13 @@ def replay(rep, res):
         return 1 if cls in BAD else 0
     finally:
         shutil.rmtree(cwd, ignore_errors=True)
+
+
+if __name__ == "__main__" and len(sys.argv) > 1 and sys.argv[1] == "gen":
+    # python3 c01.py gen <tier> <seed> <k> <sets> <mutations> <noise> <paths> <out file>
+    import pickle
+    a = sys.argv[2:]
+    r = gen_chunk((a[0], int(a[1]), int(a[2]), int(a[3]), int(a[4]), int(a[5]), int(a[6])))
+    with open(a[7] + ".tmp", "wb") as f:
+        pickle.dump(r, f, protocol=4)
+    os.replace(a[7] + ".tmp", a[7])
